@@ -8,6 +8,8 @@ import Qvnt.Lemmas.Queue
 import Qvnt.Lemmas.GenExtOp.extop_push_eq
 import Qvnt.Lemmas.GenInt.int_get_q_idx_eq
 import Qvnt.Lemmas.GenInt.MacrosDisjoint
+import Qvnt.Lemmas.GenInt.MacrosInv
+import Qvnt.Lemmas.GenMacro.macro_process_eq
 import Qvnt.Lemmas.GenInt.mapExtend_disjoint
 import Qvnt.Lemmas.GenInt.mapGet_eq_lookupLast
 import Qvnt.Lemmas.GenInt.regsOf_eq
@@ -20,11 +22,11 @@ variable {R : Type}
 section proc
 variable [Add R] [Sub R] [Mul R] [Neg R] [Div R] [ExprFns R] [AngleFns R]
 
-theorem int_process_apply_gate_eq [Zero R] [One R] [Consts R] (s c : Interp R) (hd : MacrosDisjoint s c)
+theorem int_process_apply_gate_eq [Zero R] [One R] [Consts R] (s c : Interp R) (hk : MacrosInv s c)
     (name : String) (regs : List Arg) (args : List (PExpr R)) :
     int_process_apply_gate s c name regs args = (Interp.processApply s c ⟨name, regs, args⟩).toE := by
   unfold int_process_apply_gate Interp.processApply
-  simp only [regsOf_eq, argsOf_eq, mapExtend_disjoint hd, mapGet_eq_lookupLast]
+  simp only [regsOf_eq, argsOf_eq, mapExtend_disjoint hk.disjoint, mapGet_eq_lookupLast]
   have hf : (fun a1 => int_get_q_idx_with_context s c a1) = fun a => Interp.getIdx s c true a := by
     funext a; exact int_get_q_idx_eq s c a
   simp only [hf]
@@ -38,7 +40,7 @@ theorem int_process_apply_gate_eq [Zero R] [One R] [Consts R] (s c : Interp R) (
       simp only []
       cases hl : lookupLast (s.macros ++ c.macros) name with
       | some m =>
-        simp only [Macro.processE]
+        simp only [macro_process_eq _ hk, Macro.processE]
         cases Macro.process (s.macros ++ c.macros) ((s.macros ++ c.macros).length + 2) m name rs as [name] with
         | ok o => simp [Res.toE, extop_push_eq]
         | err e => simp [Res.toE]
